@@ -77,6 +77,13 @@ def rule_reduce_fold(ctx, facts, prefix="C08-R2"):
             continue
         agg = d[2]["rv"]
         fop = agg["ops"][agg["fields"].index("failure")]
+        from ..common import iterator_fold
+        itf = iterator_fold(facts, r, fop)
+        if itf is not None:
+            good = itf["kind"] == "any" and itf["field"] == "failure" and itf["root"] == ("param", 1)
+            ctx.check(good, prefix, "or-fold", "failure = map_results.iter().any(|r| r.failure): an OR over every element (%s over %s)" % (itf["kind"], itf["root"]), r.where(bb))
+            ok_any = ok_any or good
+            continue
         fl = _root_local(r, fop)
         if fl is None:
             ctx.bad(prefix, "failure-source", "reduce's failure is not an accumulator variable (%s)" % rv_str(agg), r.where(bb))
